@@ -1597,7 +1597,9 @@ class ClassicChannel(utils.EventEmitter):
 
         self._change_state(self.State.CLOSED)
         if self.disconnection_result:
-            self.disconnection_result.set_result(None)
+            # The caller may have cancelled its disconnect() call meanwhile
+            if not self.disconnection_result.done():
+                self.disconnection_result.set_result(None)
             self.disconnection_result = None
         self.emit(self.EVENT_CLOSE)
         self.manager.on_channel_closed(self)
@@ -1769,7 +1771,8 @@ class LeCreditBasedChannel(utils.EventEmitter):
             self.connection_result.cancel()
             self.connection_result = None
         if self.disconnection_result is not None:
-            self.disconnection_result.set_result(None)
+            if not self.disconnection_result.done():
+                self.disconnection_result.set_result(None)
             self.disconnection_result = None
         self.flush_output()
 
@@ -1908,7 +1911,8 @@ class LeCreditBasedChannel(utils.EventEmitter):
         self._change_state(self.State.DISCONNECTED)
         self.manager.on_channel_closed(self)
         if self.disconnection_result is not None:
-            self.disconnection_result.set_result(None)
+            if not self.disconnection_result.done():
+                self.disconnection_result.set_result(None)
             self.disconnection_result = None
         self.flush_output()
 
@@ -1927,7 +1931,8 @@ class LeCreditBasedChannel(utils.EventEmitter):
         self._change_state(self.State.DISCONNECTED)
         self.manager.on_channel_closed(self)
         if self.disconnection_result:
-            self.disconnection_result.set_result(None)
+            if not self.disconnection_result.done():
+                self.disconnection_result.set_result(None)
             self.disconnection_result = None
 
     def on_att_mtu_update(self, mtu: int) -> None:
